@@ -26,6 +26,16 @@ type goImporter struct {
 
 	debugImports bool
 	debugPrint   func(string)
+
+	// depTypes holds the types that engineState.FindType found among
+	// the dependencies of the packages this importer was used for.
+	// An importer is not shared between the runs, so it needs no locking.
+	depTypes map[depTypeKey]types.Type
+}
+
+type depTypeKey struct {
+	pkg *types.Package
+	fqn string
 }
 
 type goImporterConfig struct {
